@@ -36,6 +36,13 @@ func H_parent_chain() {
 				src += " parent::m();"
 			}
 			src += " }\n"
+			// the same chain in STATIC context: static:: names the class the call was made on at every
+			// level the call is forwarded through with parent::
+			src += "  public static function sm() { emit(" + itoa(i) + "); emit(static::tag());"
+			if chain[i] {
+				src += " parent::sm();"
+			}
+			src += " }\n"
 		}
 		// who(): which class does self:: name here; every class overrides tag()
 		src += "  public static function tag() { return " + itoa(5+i) + "; }\n"
@@ -48,6 +55,9 @@ func H_parent_chain() {
 	}
 	for j := 0; j < n; j++ {
 		src += "mark(" + itoa(j) + "); $o = new K" + itoa(j) + "(); $o->m();\n"
+	}
+	for j := 0; j < n; j++ {
+		src += "mark(" + itoa(10+j) + "); K" + itoa(j) + "::sm();\n"
 	}
 	for j := 1; j < n; j++ {
 		src += "emit(K" + itoa(j) + "::viaStatic()); emit(K" + itoa(j) + "::viaSelf());\n"
@@ -79,6 +89,17 @@ func H_parent_chain() {
 		cur := nearest(j)
 		for cur >= 0 {
 			want = append(want, sx.Obs{Kind: 'i', I: cur})
+			if !chain[cur] {
+				break
+			}
+			cur = nearest(cur - 1)
+		}
+	}
+	for j := 0; j < n; j++ {
+		want = append(want, sx.Obs{Kind: 'M', I: 10 + j})
+		cur := nearest(j)
+		for cur >= 0 {
+			want = append(want, sx.Obs{Kind: 'i', I: cur}, sx.Obs{Kind: 'i', I: 5 + j})
 			if !chain[cur] {
 				break
 			}
